@@ -15,6 +15,7 @@ const LinesPrelude = `local function dumplocals(tag)
     if n:sub(1, 1) ~= "(" then emit("local@" .. tag, n, v) end
     i = i + 1
   end
+  return tag
 end
 local function setbyname(name, val)
   local i, found = 1, nil
@@ -195,7 +196,21 @@ func (g *Gen) tplScopeProbes() []L.Stmt {
 			g.class("scope:shadowed_name")
 		}
 		names = append(names, n)
-		body = append(body, local1(n, g.leaf([]Kind{KInt, KStr, KBool}[g.n(3, "dk")])))
+		// the query may come from inside the statement that declares the variable, or from the instruction just before it:
+		// the variable is not in scope yet
+		switch g.n(6, "declform") {
+		case 2:
+			g.class("scope:probe_inside_declaring_statement")
+			body = append(body, local1(n, call(name("dumplocals"), str(tag+" initialiser of "+n))))
+		case 3:
+			g.class("scope:probe_just_before_declaration")
+			body = append(body, callStmt(call(name("dumplocals"), str(tag+" before function "+n))), &L.LocalFuncStmt{Name: n, Fn: fn(nil, false, blk(ret(num(1))))})
+		case 4:
+			g.class("scope:probe_just_before_declaration")
+			body = append(body, callStmt(call(name("dumplocals"), str(tag+" before bare local "+n))), local([]string{n}))
+		default:
+			body = append(body, local1(n, g.leaf([]Kind{KInt, KStr, KBool}[g.n(3, "dk")])))
+		}
 		if g.n(3, "endedscope") == 0 {
 			// an inner scope that has ended before the probe
 			inner := []L.Stmt{local1(g.fresh("gone"), num(1)), local1(g.fresh("gone"), str("x"))}
@@ -228,8 +243,10 @@ func (g *Gen) tplScopeProbes() []L.Stmt {
 		body = append(body, &L.DoStmt{Body: blk(append([]L.Stmt{local1("blk", num(1))}, probe("block")...)...)})
 		body = append(body, probe("after block")...)
 	case 2:
+		body = append(body, callStmt(call(name("dumplocals"), str(tag+" before numeric for"))))
 		body = append(body, &L.NumForStmt{Var: "li", Start: num(1), End: num(2), Body: blk(append([]L.Stmt{local1("inloop", name("li"))}, probe("numfor")...)...)})
 	case 3:
+		body = append(body, callStmt(call(name("dumplocals"), str(tag+" before generic for"))))
 		body = append(body, &L.GenForStmt{Names: []string{"gk", "gv"}, Exprs: []L.Expr{call(name("ipairs"), tbl(pos(str("e1"))))}, Body: blk(probe("genfor")...)})
 	default:
 		// a closure: its own locals and parameters at level 1, upvalues through getupvalue/setupvalue
